@@ -207,6 +207,9 @@ func curvedShapes() []shape {
 		{mv, 0, 0, mv, cb, 6, 6, -6, 6, 0, 0, cb, cl, 0, 0, cl},                           // teardrop: ONE closed cubic returning to its start with a corner (zero-length close)
 		{mv, 0, 0, mv, cb, -6, 6, 6, 6, 0, 0, cb, cl, 0, 0, cl},                           // the same, clockwise
 		{mv, 0, 0, mv, ar, 3, 2, 0, 3, 0, 1, ar, cl, 0, 0, cl},                            // one large arc closed by a short line
+		{mv, 0, 0, mv, cb, 2, 4, 7, 4, 10, 4.5, cb},                                       // cubic with an inflection point late in its parameter range (t ~ 0.85)
+		{mv, 10, 4.5, mv, cb, 7, 4, 2, 4, 0, 0, cb},                                       // the same curve reversed (inflection at t ~ 0.15)
+		{mv, 0, 0, mv, cb, 3, 3, 5, 3, 8, 2, cb, ln, 9, 4, ln},                            // late inflection, then a line
 		{mv, 0, 0, mv, cb, 0, 0, 2, 0, 4, 2, cb},                                          // cubic whose first control point is its start point (zero derivative at t=0)
 		{mv, -2, 0, mv, ln, 0, 0, ln, cb, 0, 0, 2, 0, 4, 2, cb},                           // the same after a line (tangent continuation)
 		{mv, 0, 0, mv, cb, 2, 2, 4, 0, 4, 0, cb},                                          // cubic whose last control point is its end point
